@@ -9,7 +9,7 @@ For now, shift/reduce conflicts are automatically resolved as shifts.
 from typing import Dict, Set, Iterator, Tuple, List, TypeVar, Generic
 from collections import defaultdict
 
-from ..utils import classify, classify_bool, bfs, fzset, Enumerator, logger
+from ..utils import classify, classify_bool, bfs, fzset, Enumerator, logger, OrderedSet
 from ..exceptions import GrammarError
 
 from .grammar_analysis import GrammarAnalyzer, Terminal, LR0ItemSet, RulePtr, State
@@ -158,13 +158,16 @@ class LALR_Analyzer(GrammarAnalyzer):
         GrammarAnalyzer.__init__(self, parser_conf, debug, strict)
         self.nonterminal_transitions = []
         self.directly_reads = defaultdict(set)
-        self.reads = defaultdict(set)
-        self.includes = defaultdict(set)
-        self.lookback = defaultdict(set)
+        # Ordered sets: the elements hold LR0ItemSets, which hash by their address. With plain sets, the
+        # numbering of the states and the order of the entries of the parse table (visible through
+        # InteractiveParser.choices()) would depend on where the objects happened to be allocated
+        self.reads = defaultdict(OrderedSet)
+        self.includes = defaultdict(OrderedSet)
+        self.lookback = defaultdict(OrderedSet)
 
 
     def compute_lr0_states(self) -> None:
-        self.lr0_itemsets = set()
+        self.lr0_itemsets = OrderedSet()
         # map of kernels to LR0ItemSets
         cache: Dict['State', LR0ItemSet] = {}
 
